@@ -43,9 +43,10 @@ class Short(RefError):
 class Mismatch(RefError):
     """A constant / NRC value in the PDU is not the described one."""
 
-    def __init__(self, text: str, leading: bool = False):
+    def __init__(self, text: str, leading: bool = False, nrc: bool = False):
         super().__init__(text)
         self.leading = leading
+        self.nrc = nrc
 
 
 class Invalid(RefError):
@@ -350,6 +351,8 @@ class DecCtx:
         self.journal: List[Tuple[J, Any]] = []
         self.max_end = 0
         self.first_const = True
+        #: number of leading request bytes known to be constant (None: all of them)
+        self.request_const_len: Optional[int] = None
 
 
 def _nbytes(bits: int, bit: int) -> int:
@@ -984,7 +987,11 @@ class Ref:
             if kind == "CODED-CONST":
                 v, cursor = self.dec_dct(cx, p["dct"], pos, bit)
                 if v != p["value"]:
-                    raise Mismatch(f"{name}: {v!r} != {p['value']!r}", leading=cx.first_const)
+                    # "constant prefix" is read as a prefix of whole bytes: a leading constant
+                    # that shares its byte with a value is not part of it
+                    whole = bit == 0 and p["dct"].get("bits", 8) % 8 == 0
+                    raise Mismatch(f"{name}: {v!r} != {p['value']!r}",
+                                   leading=cx.first_const and whole)
                 res[name] = v
             elif kind == "PHYS-CONST":
                 v, cursor = self.dec_dobj(cx, self.dobj(p["dop"]), pos, bit, is_last)
@@ -1005,17 +1012,20 @@ class Ref:
             elif kind == "NRC-CONST":
                 v, cursor = self.dec_dct(cx, p["dct"], pos, bit)
                 if v not in p["values"]:
-                    raise Mismatch(f"NRC {v!r} not listed")
+                    raise Mismatch(f"NRC {v!r} not listed", nrc=True)
                 res[name] = v
             elif kind == "MATCHING-REQUEST-PARAM":
                 cursor = pos + p["len"]
                 if cursor > len(cx.pdu):
                     raise Short("matching request param")
                 got = cx.pdu[pos:cursor]
-                if cx.request is not None:
+                if cx.request is not None and len(cx.request) >= p["req_pos"] + p["len"]:
                     want = cx.request[p["req_pos"]:p["req_pos"] + p["len"]]
                     if got != want:
-                        raise Mismatch(f"{name}: request echo differs", leading=cx.first_const)
+                        const_part = cx.request_const_len is None or \
+                            p["req_pos"] + p["len"] <= cx.request_const_len
+                        raise Mismatch(f"{name}: request echo differs",
+                                       leading=cx.first_const and const_part)
                 res[name] = got
             elif kind == "LENGTH-KEY":
                 cx.first_const = False
@@ -1060,8 +1070,27 @@ class Ref:
                        bool(getattr(cx, "implicit_keys", None)),
                        bool(getattr(cx, "endmarker_used", False)))
 
-    def decode(self, msg: J, pdu: bytes, request: Optional[bytes] = None) -> Tuple[Dict[str, Any], int]:
+    def const_prefix(self, msg: J) -> bytes:
+        """Leading bytes of every PDU of the message that are fully determined by constants."""
+        cx = EncCtx(self, None)
+        cursor = 0
+        for p in msg["params"]:
+            if p["p"] != "CODED-CONST" or p["dct"]["k"] != "STD":
+                break
+            pos = p["byte"] if p.get("byte") is not None else cursor
+            try:
+                cursor = self.enc_dct(cx, p["dct"], p["value"], pos, p.get("bit") or 0, False)
+            except RefError:
+                break
+        n = 0
+        while n < len(cx.pdu.claimed) and cx.pdu.claimed[n] == 0xFF:
+            n += 1
+        return bytes(cx.pdu.buf[:n])
+
+    def decode(self, msg: J, pdu: bytes, request: Optional[bytes] = None,
+               request_const_len: Optional[int] = None) -> Tuple[Dict[str, Any], int]:
         cx = DecCtx(self, pdu, request)
+        cx.request_const_len = request_const_len
         vals, _ = self.dec_params(cx, msg["params"], 0, True)
         return vals, cx.max_end
 
